@@ -28,3 +28,19 @@ package client
 //@ loop 4 continue [each-relayer-once] ncalls("RegisterRelayers") == 1
 //@ callsite SetChainName [chain-name-as-exported] chainName == gs.NativeChainName
 //@ ensures [everything-imported] loopCompleted(1) && loopCompleted(2) && loopCompleted(4) && ncalls("SetChainName") == 1
+
+// ======================= C15: executing a passed client proposal never panics in EndBlock ========================
+// ("nopanic dryrun": DESIGN section 8 C15 tier ii - a panic site whose guard depends on the proposal content only and
+// that lies on every nil-returning path has already been evaluated by the governance submission dry-run)
+// verif:func handleCreateClientProposal
+//@ nopanic dryrun
+//@ modifies world(ctx)
+// verif:func handleUpgradeClientProposal
+//@ nopanic dryrun
+//@ modifies world(ctx)
+// verif:func handleToggleClientProposal
+//@ nopanic dryrun
+//@ modifies world(ctx)
+// verif:func handleRegisterRelayerProposal
+//@ nopanic dryrun
+//@ modifies world(ctx)
